@@ -360,7 +360,7 @@ func (c *Canary) Verify() string {
 }
 
 func (s *Session) placeCanary(where string, wantFd int) {
-	if !s.Hooks.Canaries && !(s.Hooks.Bait && strings.HasPrefix(where, "by a task")) {
+	if !s.Hooks.Canaries && !(s.Hooks.Bait && (strings.HasPrefix(where, "by a task") || strings.HasPrefix(where, "on the loop right after EventLoop.Close inside OnTraffic"))) {
 		return
 	}
 	// grab a few pairs; keep the ones that landed on interesting numbers (or the first)
